@@ -353,3 +353,205 @@ Proof.
   - rewrite (fr_descs _ _ _ _ _ FR). fold su in Uds. rewrite Uds, Dm. reflexivity.
   - exact I'.
 Qed.
+
+(* ================================================================================================ *)
+(* mi_heap_destroy of a no_reclaim heap                                                              *)
+(* ================================================================================================ *)
+Lemma flat_map_partition_perm {A B} (f : A -> list B) (g : A -> bool) l :
+  Permutation (flat_map f l) (flat_map f (filter g l) ++ flat_map f (filter (fun x => negb (g x)) l)).
+Proof.
+  induction l as [|x r IH]; cbn; [constructor|]. destruct (g x); cbn.
+  - rewrite <- app_assoc. apply Permutation_app_head. exact IH.
+  - rewrite IH. rewrite !app_assoc. apply Permutation_app_tail. apply Permutation_app_comm.
+Qed.
+
+Lemma blocks_of_heap_filter s h :
+  blocks_of_heap s h = flat_map (fun kv => blocks (snd kv)) (filter (fun kv => opt_eqb (pheap (snd kv)) (Some h)) (pages s)).
+Proof.
+  unfold blocks_of_heap. induction (pages s) as [|[k v] r IH]; cbn; [reflexivity|].
+  destruct (opt_eqb (pheap v) (Some h)); cbn; rewrite IH; reflexivity.
+Qed.
+
+Lemma in_blocks_of_heap s h b : In b (blocks_of_heap s h) <-> exists p pi, In (p, pi) (pages s) /\ pheap pi = Some h /\ In b (blocks pi).
+Proof.
+  unfold blocks_of_heap. rewrite in_flat_map. split.
+  - intros [[p pi] [Hin Hb]]. cbn in Hb. destruct (opt_eqb (pheap pi) (Some h)) eqn:E; [|destruct Hb].
+    apply opt_eqb_spec in E. eauto.
+  - intros [p [pi [Hin [E Hb]]]]. exists (p, pi). split; [exact Hin|]. cbn. rewrite E, opt_eqb_refl. exact Hb.
+Qed.
+
+Theorem destroy_exactly_own s h hp s' :
+  heap_Inv s -> get_heap s h = Some hp -> no_reclaim hp = true -> h <> backing s -> heap_destroy s h = Some s' ->
+  exists d pd pid, find_desc (descs s) h = Some d /\
+    get_page s pd = Some pid /\ In d (blocks pid) /\ pheap pid <> Some h /\
+    (* exactly the blocks of h and h's descriptor are released *)
+    Permutation (live_blocks s) (d :: blocks_of_heap s h ++ live_blocks s') /\
+    (* frame: every page of another heap (or of no heap) is untouched, except that the page pd that
+       held the descriptor lost that block (and is freed / unfulled by mi_free) *)
+    (forall q qi, get_page s q = Some qi -> pheap qi <> Some h -> q <> pd -> get_page s' q = Some qi) /\
+    (forall q qi', get_page s' q = Some qi' ->
+       exists qi, get_page s q = Some qi /\ pheap qi <> Some h /\ pheap qi' = pheap qi /\ incl (blocks qi') (blocks qi)) /\
+    (forall q qi x, get_page s q = Some qi -> pheap qi <> Some h -> In x (blocks qi) -> x <> d ->
+       exists qi', get_page s' q = Some qi' /\ pheap qi' = pheap qi /\ In x (blocks qi')) /\
+    (* frame: every other heap is untouched, except the heap of pd (the backing heap) around pd *)
+    (forall k, k <> h -> pheap pid <> Some k -> get_heap s' k = get_heap s k) /\
+    (forall k hk hk' i q, k <> h -> get_heap s k = Some hk -> get_heap s' k = Some hk' -> q <> pd ->
+       (In q (qget (queues hk') i) <-> In q (qget (queues hk) i))) /\
+    ~ In h (heap_ids s') /\ (forall k, k <> h -> (In k (heap_ids s') <-> In k (heap_ids s))) /\
+    backing s' = backing s /\ descs s' = filter (fun kv => negb (fst kv =? h)) (descs s) /\ heap_Inv s'.
+Proof.
+  intros I H NR Hne K. pose proof (heap_destroy_inv s h s' I K) as I'.
+  unfold heap_destroy in K. rewrite H, NR in K.
+  pose proof (heap_destroy_pages_inv s h hp I H) as I1.
+  destruct (heap_destroy_pages_spec s h hp I H) as [GP [GH [F1 [F2 [F3 [F4 [FP FH]]]]]]].
+  set (s1 := heap_destroy_pages s h) in *.
+  assert (get_heap s1 h = Some (set_queues hp (repeat [] NBINS) 0)) as H1 by (rewrite GH, N.eqb_refl; reflexivity).
+  destruct (heap_free_spec s1 h _ s' I1 H1 ltac:(rewrite F3; exact Hne) K) as [d [D BF]]. rewrite F4 in D.
+  assert (forall p pi, get_page s1 p = Some pi -> pheap pi <> Some h) as NP.
+  { intros p pi G E. rewrite GP in G. destruct (get_page s p) as [pi0|]; [|discriminate].
+    destruct (opt_eqb (pheap pi0) (Some h)) eqn:X; [discriminate|]. inversion G; subst. rewrite E, opt_eqb_refl in X. discriminate. }
+  destruct (block_free_spec _ _ _ _ (unlink_heap_inv s1 h I1 ltac:(rewrite F3; exact Hne) NP) BF) as [pd [pid [Gd [Hd FR]]]].
+  set (su := unlink_heap s1 h) in *.
+  destruct (unlink_frames s1 h) as [Up [Uh [Ub [Ud Uds]]]]. fold su in Up, Uh, Ub, Ud, Uds.
+  assert (forall q, get_page su q = get_page s1 q) as GPu by (intros q; unfold get_page; rewrite Up; reflexivity).
+  assert (get_page s pd = Some pid /\ pheap pid <> Some h) as [Gd0 Ed0].
+  { rewrite GPu, GP in Gd. destruct (get_page s pd) as [pi0|]; [|discriminate].
+    destruct (opt_eqb (pheap pi0) (Some h)) eqn:X; [discriminate|]. inversion Gd; subst. split; [reflexivity|].
+    intros E. rewrite E, opt_eqb_refl in X. discriminate. }
+  exists d, pd, pid. split; [exact D|]. split; [exact Gd0|]. split; [exact Hd|]. split; [exact Ed0|].
+  split; [|split; [|split; [|split; [|split; [|split; [|split; [|split; [|split; [|split]]]]]]]]].
+  - assert (Permutation (live_blocks s) (blocks_of_heap s h ++ live_blocks s1)) as P1.
+    { unfold live_blocks at 2. rewrite FP, blocks_of_heap_filter. unfold live_blocks.
+      rewrite (flat_map_partition_perm _ (fun kv => opt_eqb (pheap (snd kv)) (Some h)) (pages s)).
+      apply Permutation_app_head.
+      assert (filter (fun x => negb (opt_eqb (pheap (snd x)) (Some h))) (pages s) =
+              filter (fun kv => negb (inb (fst kv) (heap_pages hp))) (pages s)) as ->; [|reflexivity].
+      apply filter_ext_in. intros [q qi] Hin. cbn [fst snd]. f_equal.
+      pose proof (inv_get_page_in s q qi I Hin) as Gq.
+      apply eq_true_iff_eq. rewrite opt_eqb_spec, inb_spec, (inv_queued_iff s h hp q I H). split.
+      - intros E. eauto.
+      - intros [qi0 [G0 E0]]. rewrite Gq in G0. inversion G0; subst. exact E0. }
+    rewrite P1. assert (live_blocks su = live_blocks s1) as Lu by (unfold live_blocks; rewrite Up; reflexivity).
+    rewrite <- Lu. rewrite (fr_perm _ _ _ _ _ FR). symmetry. apply Permutation_middle.
+  - intros q qi Gq Eq Hq. rewrite (fr_other _ _ _ _ _ FR q Hq), GPu, GP, Gq.
+    destruct (opt_eqb (pheap qi) (Some h)) eqn:X; [apply opt_eqb_spec in X; contradiction|reflexivity].
+  - intros q qi' Gq'. destruct (freed_page_rel su s' d pd pid q qi' Gd FR Gq') as [qu [Gqu [E1 [E2 _]]]].
+    rewrite GPu, GP in Gqu. destruct (get_page s q) as [qi|] eqn:Gq; [|discriminate].
+    destruct (opt_eqb (pheap qi) (Some h)) eqn:X; [discriminate|]. inversion Gqu; subst qu. exists qi.
+    split; [reflexivity|]. split; [intros E; rewrite E, opt_eqb_refl in X; discriminate|]. auto.
+  - intros q qi x Gq Eq Hx Hxd.
+    assert (get_page su q = Some qi) as Gqu.
+    { rewrite GPu, GP, Gq. destruct (opt_eqb (pheap qi) (Some h)) eqn:X; [apply opt_eqb_spec in X; contradiction|reflexivity]. }
+    apply (freed_page_keeps su s' d pd pid q qi x (unlink_heap_inv s1 h I1 ltac:(rewrite F3; exact Hne) NP) Gd Hd FR Gqu Hx Hxd).
+  - intros k Hk Hpk. rewrite (fr_heaps _ _ _ _ _ FR k Hpk). unfold su. rewrite get_heap_unlink, GH.
+    apply N.eqb_neq in Hk. rewrite Hk. reflexivity.
+  - intros k hk hk' i q Hk Gk Gk' Hq. apply (fr_queues _ _ _ _ _ FR k hk hk' i q); [|exact Gk'|exact Hq].
+    unfold su. rewrite get_heap_unlink, GH. apply N.eqb_neq in Hk. rewrite Hk. exact Gk.
+  - rewrite (fr_hids _ _ _ _ _ FR). unfold su. rewrite heap_ids_unlink, filter_In, negb_true_iff, N.eqb_neq. tauto.
+  - intros k Hk. rewrite (fr_hids _ _ _ _ _ FR). unfold su. rewrite heap_ids_unlink, filter_In, negb_true_iff, N.eqb_neq, F1. tauto.
+  - rewrite (fr_backing _ _ _ _ _ FR), Ub. exact F3.
+  - rewrite (fr_descs _ _ _ _ _ FR), Uds, F4. reflexivity.
+  - exact I'.
+Qed.
+
+(* ================================================================================================ *)
+(* the default heap                                                                                  *)
+(* ================================================================================================ *)
+Lemma block_free_default s b sl s' : block_free s b sl = Some s' -> default s' = default s /\ backing s' = backing s.
+Proof.
+  rewrite block_free_unfold. destruct (page_of_block s b) as [[p pi]|]; [|discriminate].
+  destruct (negb (inb b (blocks pi))); [discriminate|]. cbv zeta.
+  destruct (pheap pi) as [h|].
+  - destruct (is_nil _).
+    + intros K. inversion K; subst s'. unfold page_retire. destruct (_ && _); split; reflexivity.
+    + destruct (in_full pi); intros K; inversion K; subst s'; [|split; reflexivity].
+      unfold page_unfull. destruct (get_page _ p) as [pi1|]; [|split; reflexivity].
+      destruct (pheap pi1); [|split; reflexivity]. destruct (in_full pi1); split; reflexivity.
+  - destruct (sl && _); [discriminate|]. intros K. inversion K; subst s'. split; reflexivity.
+Qed.
+
+Lemma heap_free_default s h s' : In h (heap_ids s) -> heap_free s h = Some s' ->
+  default s' = (if (default s =? h) && negb (h =? backing s) then backing s else default s) /\ backing s' = backing s.
+Proof.
+  intros Hin. rewrite heap_free_unfold. destruct (h =? backing s) eqn:E.
+  - intros K. inversion K; subst. rewrite andb_false_r. split; reflexivity.
+  - rewrite andb_true_r. destruct (in_ids_get_heap s h Hin) as [hp H]. rewrite H.
+    destruct (unlink_frames s h) as [_ [_ [Ub [Ud _]]]].
+    destruct (find_desc (descs s) h).
+    + intros K. destruct (block_free_default _ _ _ _ K) as [A B]. rewrite A, B, Ub, Ud. split; reflexivity.
+    + intros K. inversion K; subst s'. destruct (default s =? h); split; reflexivity.
+Qed.
+
+Lemma collect_abandon_default s h : default (heap_collect_abandon s h) = default s.
+Proof.
+  unfold heap_collect_abandon. generalize (heap_visit_pages s h) as l. intros l. revert s.
+  induction l as [|p r IH]; intros s; cbn; [reflexivity|]. rewrite IH.
+  rewrite page_collect_abandon_unfold. destruct (get_page s p) as [pi|]; [|reflexivity].
+  destruct (pheap pi); [|reflexivity]. destruct (is_nil (blocks pi)); reflexivity.
+Qed.
+
+Lemma collect_abandon_ids s h : heap_ids (heap_collect_abandon s h) = heap_ids s.
+Proof.
+  unfold heap_collect_abandon. generalize (heap_visit_pages s h) as l. intros l. revert s.
+  induction l as [|p r IH]; intros s; cbn; [reflexivity|]. rewrite IH.
+  rewrite page_collect_abandon_unfold. destruct (get_page s p) as [pi|]; [|reflexivity].
+  destruct (pheap pi); [|reflexivity]. destruct (is_nil (blocks pi)).
+  - unfold page_free. hs. apply heap_ids_queue_remove.
+  - unfold abandon_page, home_set. hs. apply heap_ids_queue_remove.
+Qed.
+
+Lemma heap_delete_default s h s' : heap_Inv s -> In h (heap_ids s) -> heap_delete s h = Some s' ->
+  default s' = (if default s =? h then backing s else default s) /\ backing s' = backing s.
+Proof.
+  intros I Hin. unfold heap_delete. destruct (in_ids_get_heap s h Hin) as [hp H]. rewrite H.
+  destruct (in_ids_get_heap s _ (hi_backing s I)) as [bp B]. rewrite B.
+  destruct (negb (h =? backing s) && heaps_compatible bp hp) eqn:C.
+  - apply andb_true_iff in C. destruct C as [C _]. apply negb_true_iff in C. pose proof C as C2. apply N.eqb_neq in C2.
+    assert (backing s <> h) as C' by congruence.
+    destruct (heap_absorb_spec s (backing s) h bp hp I C' B H) as [_ _ _ _ [S1 S2 S3 S4 S5 S6 S7]].
+    intros K. apply heap_free_default in K.
+    + unfold home_move in K. cbn [default backing set_home] in K. rewrite S4, S5, C in K. rewrite andb_true_r in K. exact K.
+    + unfold home_move. hs. rewrite S1. exact Hin.
+  - intros K. apply heap_free_default in K; [|rewrite collect_abandon_ids; exact Hin].
+    rewrite collect_abandon_default, collect_abandon_backing in K. destruct K as [K1 K2]. split; [|exact K2].
+    rewrite K1. destruct (default s =? h) eqn:E; [|reflexivity]. destruct (h =? backing s) eqn:E2; [|reflexivity].
+    cbn. apply N.eqb_eq in E, E2. congruence.
+Qed.
+
+Theorem default_falls_back s h s' : heap_Inv s -> In h (heap_ids s) ->
+  (heap_delete s h = Some s' \/ heap_destroy s h = Some s') ->
+  default s' = (if default s =? h then backing s else default s) /\ backing s' = backing s.
+Proof.
+  intros I Hin [K|K]; [eapply heap_delete_default; eauto|].
+  unfold heap_destroy in K. destruct (in_ids_get_heap s h Hin) as [hp H]. rewrite H in K.
+  destruct (no_reclaim hp); [|eapply heap_delete_default; eauto].
+  destruct (heap_destroy_pages_spec s h hp I H) as [_ [_ [F1 [F2 [F3 _]]]]].
+  apply heap_free_default in K; [|rewrite F1; exact Hin]. rewrite F2, F3 in K. destruct K as [K1 K2]. split; [|exact K2].
+  rewrite K1. destruct (default s =? h) eqn:E; [|reflexivity]. destruct (h =? backing s) eqn:E2; [|reflexivity].
+  cbn. apply N.eqb_eq in E, E2. congruence.
+Qed.
+
+(* every other operation leaves the default heap alone (mi_heap_set_default sets it) *)
+Lemma block_malloc_default s h bin b c s' : block_malloc s h bin b c = Some s' -> default s' = default s /\ backing s' = backing s.
+Proof.
+  unfold block_malloc. destruct (get_heap s h) as [hp|] eqn:H; [|discriminate]. destruct (negb _); [discriminate|].
+  destruct (inb b _); [discriminate|]. destruct c as [p capb|p start size capb].
+  - destruct (get_page s p); [|discriminate]. destruct (_ && _); [|discriminate]. intros K. inversion K; subst s'.
+    unfold home_add. hs. unfold move_to_front. rewrite H. destruct (qget (queues hp) bin) as [|q r]; [split; reflexivity|].
+    destruct (q =? p); split; reflexivity.
+  - destruct (get_page s p); [discriminate|]. destruct (_ && _); [|discriminate]. intros K. inversion K; subst s'. split; reflexivity.
+Qed.
+
+Theorem default_unchanged s o s' : heap_step s o = Some s' ->
+  match o with OpDelete _ | OpDestroy _ | OpSetDefault _ => True | _ => default s' = default s /\ backing s' = backing s end.
+Proof.
+  destruct o; cbn [heap_step]; try exact (fun _ => I).
+  - unfold heap_new. destruct (inb k _); [discriminate|]. destruct (block_malloc _ _ _ _ _) as [s1|] eqn:M; [|discriminate].
+    intros K. inversion K; subst s'. apply block_malloc_default in M. exact M.
+  - apply block_malloc_default.
+  - apply block_free_default.
+  - unfold to_full_op. destruct (get_page s p) as [pi|] eqn:G; [|discriminate]. destruct (pheap pi) eqn:E; [|discriminate].
+    destruct (in_full pi) eqn:F; [discriminate|]. intros K. inversion K; subst s'. unfold page_to_full. rewrite G, E, F. split; reflexivity.
+  - unfold empty_page_free. destruct (get_page s p) as [pi|]; [|discriminate]. destruct (pheap pi); [|discriminate].
+    destruct (is_nil _); [|discriminate]. intros K. inversion K; subst s'. split; reflexivity.
+Qed.
